@@ -81,10 +81,16 @@ SelAll      == [t |-> "all", k |-> << >>, pat |-> [m |-> "", lit |-> << >>]]
 SelKey(k)   == [t |-> "key", k |-> k, pat |-> [m |-> "", lit |-> << >>]]
 SelRx(p)    == [t |-> "rx", k |-> << >>, pat |-> p]
 
-SelMatches(sel, key, rxMode) ==
+\* rxMode is a record [args, other]: the reading used for the ARGS family and for every other
+\* collection (an implementation may treat them differently; both are left open)
+ArgsFamily == {"ARGS", "ARGS_GET", "ARGS_POST", "ARGS_NAMES", "ARGS_GET_NAMES", "ARGS_POST_NAMES"}
+ModeFor(rxMode, col) == IF col \in ArgsFamily THEN rxMode.args ELSE rxMode.other
+RxMode(m) == [args |-> m, other |-> m]
+
+SelMatchesC(sel, key, rxMode, col) ==
   CASE sel.t = "all" -> TRUE
     [] sel.t = "key" -> FoldEq(sel.k, key)        \* string keys are case-insensitive
-    [] sel.t = "rx"  -> RxKeyMatches(sel.pat, key, rxMode)
+    [] sel.t = "rx"  -> RxKeyMatches(sel.pat, key, ModeFor(rxMode, col))
     [] OTHER         -> FALSE
 
 (***************************************************************************)
@@ -105,7 +111,11 @@ InitState(engine) ==
     rmTgts    |-> << >>,        \* sequence of [id, col, sel]
     fired     |-> << >>,        \* sequence of [id, md]
     hsev      |-> 255,
-    nops      |-> 0 ]           \* number of operator evaluations so far (observation)
+    nops      |-> 0,            \* number of operator evaluations so far (observation)
+    logOps    |-> FALSE,        \* trace validation only: keep the operator evaluations of the current rule
+    ops       |-> << >>,        \* [var, key, val, m] per operator evaluation of the current rule
+    guide     |-> << >> ]       \* trace validation only: the logged operator evaluations of the current
+                                \* rule; the order in which each target's data is walked is read off it
 
 TxGet(st, k) ==
   LET lk == Lower(k)
@@ -162,8 +172,8 @@ BaseSelect(req, ord, col) ==
       pick(src) == SelectSeq(ord, LAMBDA i : req[i].c = src)
   IN FlattenSeq([s \in 1..Len(srcs) |-> pick(srcs[s])])
 
-Excluded(exs, key, rxMode) ==
-  \E j \in 1..Len(exs) : SelMatches(exs[j], key, rxMode)
+Excluded(exs, key, rxMode, col) ==
+  \E j \in 1..Len(exs) : SelMatchesC(exs[j], key, rxMode, col)
 
 RmExcl(st, rid, col) ==     \* run-time target removals that apply to rule rid / variable col
   LET hits == SelectSeq(st.rmTgts, LAMBDA e : e.id = rid /\ e.col = col)
@@ -173,20 +183,21 @@ SelectData(st, req, ord, rxMode, rid, tgt) ==
   LET exs  == tgt.excl \o RmExcl(st, rid, tgt.col)
       raw  ==
         CASE tgt.col = "TX" ->
-               LET hit == SelectSeq(st.tx, LAMBDA e : SelMatches(tgt.sel, e.k, rxMode))
+               LET hit == SelectSeq(st.tx, LAMBDA e : SelMatchesC(tgt.sel, e.k, rxMode, "TX"))
                IN [i \in 1..Len(hit) |-> Datum("TX", hit[i].k, hit[i].v)]
           [] tgt.col = "MATCHED_VAR" -> <<Datum("MATCHED_VAR", << >>, st.mvar)>>
           [] tgt.col = "MATCHED_VARS" ->
                [i \in 1..Len(st.mvars) |-> Datum("MATCHED_VARS", st.mvars[i].n, st.mvars[i].v)]
           [] OTHER ->
                LET idx == SelectSeq(BaseSelect(req, ord, tgt.col),
-                                    LAMBDA i : SelMatches(tgt.sel, req[i].k, rxMode))
+                                    LAMBDA i : SelMatchesC(tgt.sel, req[i].k, rxMode, tgt.col))
                IN [j \in 1..Len(idx) |->
                      Datum(tgt.col, req[idx[j]].k,
                            IF IsNames(tgt.col) THEN req[idx[j]].k ELSE req[idx[j]].v)]
-      kept == SelectSeq(raw, LAMBDA d : ~Excluded(exs, d.key, rxMode))
+      kept == SelectSeq(raw, LAMBDA d : ~Excluded(exs, d.key, rxMode, tgt.col))
   IN IF tgt.count
-       THEN <<Datum(tgt.col, IF tgt.sel.t = "key" THEN tgt.sel.k ELSE << >>, Itoa(Len(kept)))>>
+       THEN \* the key reported for a count is not specified (the selector text, folded or not): left empty
+            <<Datum(tgt.col, << >>, Itoa(Len(kept)))>>
        ELSE kept
 
 (***************************************************************************)
@@ -206,12 +217,16 @@ Tf1(name, s) ==
     [] OTHER                       -> s
 RECURSIVE Tf(_, _)
 Tf(tfs, s) == IF tfs = << >> THEN s ELSE Tf(Tail(tfs), Tf1(Head(tfs), s))
-\* multiMatch: the original, then every intermediate value that differs from its predecessor
+\* multiMatch: the original, then every intermediate value a transformation reports as changed.
+\* A transformation must report "changed" when its output differs (C14); it MAY also do so when
+\* the output happens to equal the input.  Choice_OverReport names the transformations of this
+\* vocabulary that always report "changed" in the implementation (length.go, hex_encode.go).
+OverReports(name) == name \in {"length", "hexEncode"}
 RECURSIVE MMVals(_, _)
 MMVals(tfs, s) ==
   IF tfs = << >> THEN << >>
   ELSE LET n == Tf1(Head(tfs), s) IN
-       IF n # s THEN <<n>> \o MMVals(Tail(tfs), n) ELSE MMVals(Tail(tfs), s)
+       IF n # s \/ OverReports(Head(tfs)) THEN <<n>> \o MMVals(Tail(tfs), n) ELSE MMVals(Tail(tfs), s)
 Seen(r, v) == IF r.mm THEN <<v>> \o MMVals(r.tfs, v) ELSE <<Tf(r.tfs, v)>>
 
 \* op = [name, arg (value expression), neg]
@@ -302,7 +317,7 @@ DoFlowDisruptive(st, r, act) ==
                                              status |-> IF r.status = 0 THEN 403 ELSE r.status, data |-> << >>])
     [] act.a = "drop"      -> Interrupt(st, [id |-> r.id, action |-> "drop", status |-> r.status, data |-> << >>])
     [] act.a = "redirect"  -> Interrupt(st, [id |-> r.id, action |-> "redirect",
-                                             status |-> RedirectStatus(r.status), data |-> act.v])
+                                             status |-> RedirectStatus(r.status), data |-> Expand(st, act.v)])
     [] OTHER -> st      \* pass, block without a default action
 RECURSIVE RunFlow(_, _, _)
 RunFlow(st, r, acts) ==
@@ -328,18 +343,35 @@ EvalVals(st, link, data, seenq, md) ==
     THEN IF Len(data) = 1 THEN [st |-> st, md |-> md]
          ELSE EvalVals(st, link, Tail(data), Seen(link, data[2].val), md)
     ELSE LET v   == Head(seenq)
-             st0 == [st EXCEPT !.nops = @ + 1]
-         IN IF OpMatches(st0, link.op, v)
+             hit == OpMatches(st, link.op, v)
+             st0 == [st EXCEPT !.nops = @ + 1,
+                               !.ops = IF st.logOps
+                                         THEN Append(@, [var |-> Head(data).var, key |-> Head(data).key, val |-> v, m |-> hit])
+                                         ELSE @]
+         IN IF hit
               THEN LET d   == Datum(Head(data).var, Head(data).key, v)
                        st1 == MatchVariable(st0, d)
                        st2 == RunActs(st1, link.acts)
                    IN EvalVals(st2, link, data, Tail(seenq), Append(md, d))
               ELSE EvalVals(st0, link, data, Tail(seenq), md)
 
+\* trace validation: walk the selected data in the order in which the log shows them evaluated
+\* (the iteration order of a map is chosen anew by the runtime at every walk)
+RECURSIVE ReorderByLog(_, _, _, _)
+ReorderByLog(link, data, log, k) ==
+  IF data = << >> \/ k > Len(log) THEN data
+  ELSE LET idx == {j \in 1..Len(data) : /\ data[j].var = log[k].var /\ data[j].key = log[k].key
+                                        /\ Head(Seen(link, data[j].val)) = log[k].val}
+       IN IF idx = {} THEN data
+          ELSE LET j    == CHOOSE j \in idx : \A o \in idx : j <= o
+                   rest == SubSeq(data, 1, j - 1) \o SubSeq(data, j + 1, Len(data))
+               IN <<data[j]>> \o ReorderByLog(link, rest, log, k + Len(Seen(link, data[j].val)))
+
 RECURSIVE EvalTargets(_, _, _, _, _, _, _, _)
 EvalTargets(st, req, ord, rxMode, rid, link, tgts, md) ==
   IF tgts = << >> THEN [st |-> st, md |-> md]
-  ELSE LET data == SelectData(st, req, ord, rxMode, rid, Head(tgts))
+  ELSE LET data0 == SelectData(st, req, ord, rxMode, rid, Head(tgts))
+           data == IF st.guide # << >> THEN ReorderByLog(link, data0, st.guide, Len(st.ops) + 1) ELSE data0
            res  == IF data = << >> THEN [st |-> st, md |-> md]
                    ELSE EvalVals(st, link, data, Seen(link, data[1].val), md)
        IN EvalTargets(res.st, req, ord, rxMode, rid, link, Tail(tgts), res.md)
@@ -364,7 +396,7 @@ EvalChain(st, req, ord, rxMode, r, i, md) ==
        ELSE EvalChain(res.st, req, ord, rxMode, r, i + 1, md \o res.md)
 
 EvalRule(st, req, ord, rxMode, r) ==
-  LET st0 == [st EXCEPT !.mvars = << >>]           \* MATCHED_VARS restarts with every rule
+  LET st0 == [st EXCEPT !.mvars = << >>, !.ops = << >>]   \* MATCHED_VARS restarts with every rule
       res == EvalChain(st0, req, ord, rxMode, r, 1, << >>)
   IN IF ~res.ok THEN res.st
      ELSE LET st1 == RunFlow(res.st, r, r.links[1].acts)
